@@ -12,7 +12,7 @@ RULE = ("one case = one KEM-level call (derive_keypair / gen_keypair / sk_to_pk 
         "authenticated) compared byte-for-byte with the reference; distinct = distinct (kem, operation, "
         "auth?, ikm-length class or key-source class) cells; retry-path derivations are counted separately")
 ASSUMPTIONS = ["reference anchored on RFC 9180 A.1.1/A.3.1 DeriveKeyPair/Encap values, RFC 5903 ECDH vectors, libcrypto cross-check",
-               "P-384/P-521 DeriveKeyPair retry path is unreachable by any input anyone can construct (p < 2^-190)"]
+               "the P-384/P-521 DeriveKeyPair retry path is unreachable with the KEM's own hash (p < 2^-190): it is driven through the hpke_verif hook verif_derive_keypair_with and a steerable hash, i.e. with a KDF other than the KEM's"]
 
 
 def ikm_lengths(kem):
@@ -131,7 +131,92 @@ def build(env, reps):
                 continue
             s.call("sk_to_pk", sk=sk, cls="sibling")
             s.call("decap", skr=sk, enc="$pe.enc", cls="sibling")
+    build_toy(env, cw, g, reps)
     return cw
+
+
+def toy_table(rnd, kem, rows):
+    """256 x 64 table for the steerable hash (ref/toyhash.py): row c IS the candidate of counter c
+    (byte 62 of every row is its own number, which is what makes the row reachable from counter c)."""
+    t = bytearray(rnd.getrandbits(8) for _ in range(256 * 64))
+    for c, row in rows.items():
+        t[c * 64:(c + 1) * 64] = (bytes(row) + bytes(rnd.getrandbits(8) for _ in range(64)))[:64]
+    for c in range(256):
+        t[c * 64 + 62] = c
+    return bytes(t)
+
+
+def toy_candidates(rnd, kem):
+    """byte strings (the first bytes of a row) per class, for one NIST KEM.  For P-521 the candidate is
+    row || row[0:2] with byte 62 equal to the counter, so classes are built on prefixes that decide the comparison
+    with n before byte 62."""
+    from ref import toyhash
+    curve, nsk, mask = toyhash.NIST[kem]
+    w = min(nsk, 64)
+    nb = curve.n.to_bytes(nsk, "big")
+
+    def enc(v):
+        return v.to_bytes(nsk, "big")[:w]
+
+    def tail(k):
+        return bytes(rnd.getrandbits(8) for _ in range(w - k))
+    rej = {"max": b"\xff" * w}
+    acc = {"rand": enc(rnd.randrange(1, curve.n))}
+    # candidates equal to n up to byte k-1 and one above / one below it at byte k: the range check near the boundary
+    ks = [i for i in range(1, min(w, 61)) if 0 < nb[i] < 0xff]
+    for k_ in (ks[0], ks[len(ks) // 2], ks[-1]):
+        rej["n@%d+1" % k_] = nb[:k_] + bytes([nb[k_] + 1]) + tail(k_ + 1)
+        acc["n@%d-1" % k_] = nb[:k_] + bytes([nb[k_] - 1]) + tail(k_ + 1)
+    if nsk <= 64:
+        rej.update({"zero": enc(0), "n": enc(curve.n), "n+1": enc(curve.n + 1), "n+rand": enc(rnd.randrange(curve.n, 1 << (8 * nsk)))})
+        acc.update({"n-1": enc(curve.n - 1), "n-2": enc(curve.n - 2), "one": enc(1), "two": enc(2), "small": enc(rnd.randrange(1, 1 << 64))})
+    if mask == 1:
+        # P-521: bits above 521 in byte 0 must be masked off on EVERY iteration
+        for hb in (0xfe, 0xf0, 0x80, 0x02, 0xfc, 0x00):
+            acc["hi%02x" % hb] = bytes([hb]) + enc(rnd.randrange(1, curve.n))[1:]
+        for hb in (0xff, 0xf1, 0x81, 0x03, 0x01):
+            acc["hi%02x" % hb] = bytes([hb]) + b"\x00" + enc(rnd.randrange(1, curve.n))[2:]  # 2^520 + small: valid
+        for hb in (0x01, 0x03, 0x81, 0xf1):
+            rej["hi%02x-max" % hb] = bytes([hb]) + b"\xff" * (w - 1)
+    return rej, acc
+
+
+def build_toy(env, cw, g, reps):
+    """DeriveKeyPair with chosen candidates (hook verif_derive_keypair_with + harness/src/toy.rs): rejection runs of
+    every length, boundary candidates, P-521 high bits, and 256 rejections in a row.  Every call is labelled with
+    what the reference says happened (accepted counter), not with what the construction intended."""
+    from ref import toyhash
+    rnd = env.rnd
+
+    def call(s, kem, ikm, rows, what):
+        t = toy_table(rnd, kem, rows)
+        st, _, counter, _ = toyhash.derive(kem, ikm, t)
+        bucket = "all-rejected" if st != "ok" else ("c%d" % counter if counter < 4 else "c4-99" if counter < 100 else "c100-254" if counter < 255 else "c255")
+        s.call("derive_toy", ikm=ikm, table=t, cls="toy:%s:%s" % (bucket, what))
+
+    for kem in gen.KEMS:
+        k = R.KEMS[kem]
+        s = cw.session(kem, k.kdf_id, 1, sid="ty%04x" % kem)
+        if k.curve is None:
+            for _ in range(4):
+                s.call("derive_toy", ikm=g.rbytes(rnd.randrange(0, 80)), table=toy_table(rnd, kem, {}), cls="toy:x25519")
+            continue
+        rej, acc = toy_candidates(rnd, kem)
+        rn, an = sorted(rej), sorted(acc)
+        runs = [0, 1, 2, 3, 5, 17, 127, 128, 200, 254, 255] + [rnd.randrange(1, 255) for _ in range(reps)]
+        for i, run in enumerate(runs):
+            a = an[i % len(an)]
+            rows = {c: rej[rn[(c + i) % len(rn)]] for c in range(run)}
+            rows[run] = acc[a]
+            call(s, kem, g.raw(rnd.randrange(0, 80)), rows, a)
+        for a in an:      # every accept class right after one rejection of every class
+            for r_ in rn:
+                call(s, kem, g.raw(8), {0: rej[r_], 1: acc[a]}, "%s>%s" % (r_, a))
+        # no candidate is ever in range: RFC 9180 DeriveKeyPairError (the crate: documented panic)
+        for j in range(2):
+            call(s, kem, g.raw(8), {c: rej[rn[(c + j) % len(rn)]] for c in range(256)}, "-")
+        for _ in range(reps):   # free-running tables
+            call(s, kem, g.raw(rnd.randrange(0, 80)), {}, "free")
 
 
 def monitor(sess, extra):
@@ -163,6 +248,17 @@ def monitor(sess, extra):
                 r.counts["retry_path_derivations"] += 1
             if cls == "rare" and cnt == 0:
                 r.inconclusive.append("directed rare input did not take the retry path in the reference")
+        if op.op == "derive_toy" and "skip" not in op.ret:
+            from ref import toyhash
+            st, _, counter, seen = toyhash.derive(sess.ids[0], op.b["ikm"], op.b["table"])
+            r.counts["steered_derivations"] += 1
+            if k.curve is not None:
+                r.counts["steered_candidates_rejected:%04x" % sess.ids[0]] += counter
+                if counter > 0:
+                    r.counts["steered_retry_derivations:%04x" % sess.ids[0]] += 1
+                if st != "ok":
+                    r.counts["steered_all_256_rejected:%04x" % sess.ids[0]] += 1
+                r.distinct.add((sess.ids[0], "steered-accepted-counter", cls.split(":")[1]))
         r.distinct.add((sess.ids[0], op.op, cls))
         r.counts["op:%s" % op.op] += 1
     if sess.ops and not r.samples:
@@ -187,6 +283,10 @@ def run(env):
     env.extra_cov["sessions"] = len(res.sessions)
     if mr.counts["retry_path_derivations"] < 3 and not env.violations:
         raise fw.Inconclusive("the P-256 retry path was not observed (%d)" % mr.counts["retry_path_derivations"])
+    for kem in (0x0010, 0x0011, 0x0012):
+        missing = [b for b in ("c0", "c1", "c2", "c3", "c4-99", "c100-254", "c255", "all-rejected") if (kem, "steered-accepted-counter", b) not in mr.distinct]
+        if missing and not env.violations:
+            raise fw.Inconclusive("steered DeriveKeyPair for KEM %04x never produced: %s" % (kem, ", ".join(missing)))
 
 
 def replay(env, path):
